@@ -24,7 +24,7 @@ SICK = [("errno", errno.ENOENT), ("errno", errno.EACCES), ("errno", errno.EMFILE
         ("backing", "text.txt"), ("backing", "empty"), ("backing", "trunc.elf"), ("backing", "adir"),
         ("backing", "garbage.bin"), ("hdr-eio", None)]
 
-BOMB = "?(pos %d ?eq drop drop drop drop drop drop drop drop drop drop)"
+BOMB = "?(pos %d !eq || drop drop drop drop drop drop drop drop drop drop)"
 
 BODIES = [
     # (text, class)
@@ -247,7 +247,7 @@ def lib_results(z, plan):
     arg_fail = False
     for a, ent in zip(cli["args"], meta["arg_o"]):
         if "lit" in ent:
-            argvals.append([("S:" + P.hexenc(ent["lit"]), None)])
+            argvals.append([("S:" + P.hexenc(ent["lit"]), ("str", ent["lit"].encode("latin-1")))])
             continue
         if ev[ent["parse"]].outcome != "ok":
             argvals.append(None)
@@ -261,7 +261,7 @@ def lib_results(z, plan):
                 if (e.text("r") or "").startswith("0<"):
                     failed = True       # "empty stack yielded"
                     break
-                vals.append(("O:%d:0" % o, o))
+                vals.append(("O:%d:0" % o, parse_stack(e.text("r"))[0]))
             elif e.outcome == "fail":
                 failed = True
                 break
@@ -327,7 +327,8 @@ def lib_results(z, plan):
         if not finished:
             return None         # more results than the driver pulls: not judged
         file_idx = c[0][1] if cli["files"] else None
-        res["combos"].append({"results": results, "error": error, "file": file_idx})
+        avs = [x[1] for x in (c[1:] if cli["files"] else c)]
+        res["combos"].append({"results": results, "error": error, "file": file_idx, "argvalues": avs})
     return res
 
 
@@ -508,12 +509,16 @@ def model(plan, lib):
         pat = b""
         for c in combos:
             if with_header:
+                # first the file (if files were given), then every argument
+                # that has more than one value, comma-separated
+                comps = []
                 if cli["files"]:
-                    h = re.escape(vpath(cli["files"][c["file"]]).encode())
-                    if multi:
-                        h += rb"(?:,[^\n]*)?"
-                else:
-                    h = rb"[^\n]*"
+                    comps.append(re.escape(vpath(cli["files"][c["file"]]).encode()))
+                for n, av in zip(lib["argvals"], c["argvalues"]):
+                    if (n or 0) > 1:
+                        sv = show(av, False)
+                        comps.append(re.escape(sv) if sv is not None else rb"[^\n]*")
+                h = rb", ?".join(comps) if comps else re.escape(b"<no-file>")
             if count:
                 line = (h + b":" if with_header else b"") + str(len(c["results"])).encode() + rb"\n"
                 if c["error"] is not None:
